@@ -12,6 +12,8 @@ impl<A: Actor> Spawner<A> for TokioSpawner {
     where
         F: Future<Output = crate::DynResult<A>> + Send + 'static,
     {
+        #[cfg(hannibal_verif)]
+        use crate::verif::tokio;
         let handle = Arc::new(async_lock::Mutex::new(Some(tokio::spawn(future))));
 
         ActorHandle::new(move || -> JoinFuture<A> {
@@ -34,10 +36,14 @@ impl<A: Actor> Spawner<A> for TokioSpawner {
     where
         F: Future<Output = ()> + Send + 'static,
     {
+        #[cfg(hannibal_verif)]
+        use crate::verif::tokio;
         tokio::spawn(future);
     }
 
     async fn sleep(duration: Duration) {
+        #[cfg(hannibal_verif)]
+        use crate::verif::tokio;
         tokio::time::sleep(duration).await;
     }
 }
